@@ -9,6 +9,9 @@ mod dom_date;
 mod dom_pool;
 mod dom_route;
 mod dom_conn;
+mod dom_client;
+mod dom_print;
+mod dom_body;
 mod interpose;
 
 fn main() {
@@ -38,6 +41,9 @@ fn main() {
             "POOL" => dom_pool::pool(rest),
             "ROUTE" => dom_route::route(rest),
             "CONN" => dom_conn::conn(rest),
+            "CLI" => dom_client::cli(rest),
+            "PRINT" => dom_print::print(rest),
+            "BODY" => dom_body::body(rest),
             _ => "BAD-DOMAIN".to_string(),
         };
         let _ = writeln!(out, "{}", ans);
